@@ -391,6 +391,10 @@ def vocabulary(t):
     return {x[1] for x in T.walk(t) if T.is_op(x)}
 
 
+UNINTERPRETED_OPS = {'SUM', 'MIN', 'MAX', 'ABS', 'POW', 'ROUND', 'DIVMOD', 'METHOD', 'ZIP', 'SORTED', 'DICTGET', 'ANY', 'ALL', 'LIST', 'TUPLE',
+                     'SET', 'FROZENSET', 'DICT', 'BYTES', 'DECODE', 'SEQCAT', 'PLUS', 'ATTR', 'HASATTR'}
+
+
 def same_term(ob, found, expected, what, where=None, vocab=None):
     """R-TERM comparison with diagnosis.  With `vocab` (a set of operator names): a differing term that
     uses operators outside it is an unknown re-expression (UNDECIDED), not a violation."""
@@ -426,6 +430,13 @@ def same_term(ob, found, expected, what, where=None, vocab=None):
     if ext:
         # a library function the summary table does not model: the value is not known, which is not a difference
         ob.undecided('%s: the value goes through %s, which the summary table does not model; not compared' % (what, ', '.join(ext)), where)
+        return False
+    # operators that stand for a builtin / method the evaluator did not interpret (it only recorded the call): a value
+    # that contains one where the specification has none is not known, which is not a difference
+    unint = sorted({x[1] for x in T.walk(found) if T.is_op(x) and x[1] in UNINTERPRETED_OPS}
+                   - ({x[1] for x in T.walk(expected) if T.is_op(x)} if expected is not None else set()))
+    if unint:
+        ob.undecided('%s: the value goes through %s, which the evaluator does not interpret; not compared' % (what, ', '.join(unint)), where)
         return False
     d = T.first_difference(found, expected)
     path, a, b = d if d else ('', found, expected)
